@@ -474,8 +474,10 @@ theorem sized_of (p : GProg) (hp : PlainValues p) (N K : Nat)
           obtain ⟨f, hf⟩ := here.vals m xs e hxs hsz
           rcases hf with h | ⟨σ1, xs', h, hpost, hn⟩
           · exact ⟨f + 1, Or.inl (by simp only [linkVal, hk]; simp only at h; rw [h])⟩
-          · exact ⟨f + 1, Or.inr ⟨σ1, .set xs', by simp only [linkVal, hk]; simp only at h; rw [h], hpost,
-              by simpa [CV.noMS] using hn⟩⟩
+          · rcases guardDup_cases p σ1 xs' (.set xs') with hg | hg
+            · exact ⟨f + 1, Or.inl (by simp only [linkVal, hk]; simp only at h; rw [h]; exact hg)⟩
+            · exact ⟨f + 1, Or.inr ⟨σ1, .set xs', by simp only [linkVal, hk]; simp only at h; rw [h]; exact hg, hpost,
+                by simpa [CV.noMS] using hn⟩⟩
         | list e =>
           obtain ⟨f, hf⟩ := here.vals m xs e hxs hsz
           rcases hf with h | ⟨σ1, xs', h, hpost, hn⟩
@@ -491,8 +493,10 @@ theorem sized_of (p : GProg) (hp : PlainValues p) (N K : Nat)
           obtain ⟨f, hf⟩ := here.vals m xs e hxs hsz
           rcases hf with h | ⟨σ1, xs', h, hpost, hn⟩
           · exact ⟨f + 1, Or.inl (by simp only [linkVal, hk]; simp only at h; rw [h])⟩
-          · exact ⟨f + 1, Or.inr ⟨σ1, .set xs', by simp only [linkVal, hk]; simp only at h; rw [h], hpost,
-              by simpa [CV.noMS] using hn⟩⟩
+          · rcases guardDup_cases p σ1 xs' (.set xs') with hg | hg
+            · exact ⟨f + 1, Or.inl (by simp only [linkVal, hk]; simp only at h; rw [h]; exact hg)⟩
+            · exact ⟨f + 1, Or.inr ⟨σ1, .set xs', by simp only [linkVal, hk]; simp only at h; rw [h]; exact hg, hpost,
+                by simpa [CV.noMS] using hn⟩⟩
         | _ => exact ⟨1, Or.inl (by simp only [linkVal, hk])⟩
       | cref cm cn =>
         cases hl : lookupConst p cm cn with
